@@ -59,6 +59,9 @@ META["rule"] += (
 META["rule"] += (
     " " + "Added after the fifth round: the Arenas measure runs on components up to 95 nodes, the sizes with a short last chunk (64, 73, 82, 91) taken in turn; a fifth of the master-loop runs use the library's own submit_call / get_result in their mode without slaves.")
 
+META["rule"] += (
+    " " + 'Added after the sixth round: every fifth network of the master-loop family is directed (a third of the links keep one direction).')
+
 MEASURES = [
     ("newman_betweenness", {}),
     ("nsi_newman_betweenness", {}),
@@ -153,6 +156,16 @@ def master_loop_cases(ctx):
                 sizes.append(int(r.integers(3, 11)))
         A = multi_component(r, sizes, small=(1, 2) if nets % 2 else ())
         n = len(A)
+        directed = (nets % 5 == 2)
+        if directed:
+            # a directed network: a third of the links keep one direction
+            # only (the rows of A+ are then not its columns)
+            drop = np.triu(r.random((n, n)) < 0.33, 1) & (A != 0)
+            if r.random() < 0.5:
+                drop = drop.T
+            A = A.copy()
+            A[drop] = 0
+            ctx.count("directed_networks")
         w = G.pos_weights(r, n)
         serial = {}
         for m, kw in MEASURES:
@@ -173,7 +186,7 @@ def master_loop_cases(ctx):
                 key = mname(m, kw)
                 if key not in serial:
                     netmod.mpi = real_mpi
-                    net = Network(adjacency=A, node_weights=w,
+                    net = Network(adjacency=A, directed=directed, node_weights=w,
                                   silence_level=3)
                     ok, val = ctx.call(getattr(net, m), **kw)
                     serial[key] = (ok, val)
@@ -190,7 +203,7 @@ def master_loop_cases(ctx):
                     own = _OwnProtocol(real_mpi, W)
                     netmod.mpi = own
                     try:
-                        net = Network(adjacency=A, node_weights=w,
+                        net = Network(adjacency=A, directed=directed, node_weights=w,
                                       silence_level=sl)
                         with ctx.guard(300):
                             ok, val = ctx.call(getattr(net, m), **kw)
@@ -215,7 +228,7 @@ def master_loop_cases(ctx):
                 fake = FakeMPI(W, policy, order, rng=rr)
                 netmod.mpi = fake
                 try:
-                    net = Network(adjacency=A, node_weights=w,
+                    net = Network(adjacency=A, directed=directed, node_weights=w,
                                   silence_level=sl)
                     with ctx.guard(300):
                         ok, val = ctx.call(getattr(net, m), **kw)
